@@ -585,6 +585,16 @@ fn gen(cases_path: &str, out_rs: &str, out_facts: &str) {
                 (9, "None".into())
             }
         };
+        // BFS witness strings of the unanchored relation rows (same order as REL_U)
+        for (i, (k, _)) in rel_u.iter().enumerate() {
+            let w = &wit_u[k];
+            writeln!(rs, "pub static W{}: [u8; {}] = {};", i, w.len(), arr(w)).unwrap();
+        }
+        write!(rs, "pub static WIT_U: [&[u8]; {}] = [", rel_u.len()).unwrap();
+        for i in 0..rel_u.len() {
+            write!(rs, "&W{},", i).unwrap();
+        }
+        writeln!(rs, "];").unwrap();
         writeln!(rs, "pub struct C;").unwrap();
         writeln!(rs, "impl crate::Case for C {{").unwrap();
         writeln!(rs, "const NAME: &'static str = {:?};", spec.name).unwrap();
@@ -602,6 +612,7 @@ fn gen(cases_path: &str, out_rs: &str, out_facts: &str) {
         writeln!(rs, "fn nnfa() -> aho_corasick::nfa::noncontiguous::NFA {{ let mut a = n::get(); aho_corasick::verif::nnfa::set_prefilter(&mut a, Self::prefilter()); a }}").unwrap();
         writeln!(rs, "fn rel_u() -> &'static [[u32; 3]] {{ &REL_U }}").unwrap();
         writeln!(rs, "fn rel_a() -> &'static [[u32; 3]] {{ &REL_A }}").unwrap();
+        writeln!(rs, "fn wit_u() -> &'static [&'static [u8]] {{ &WIT_U }}").unwrap();
         writeln!(rs, "}}").unwrap();
         writeln!(rs, "}}").unwrap();
 
@@ -646,6 +657,7 @@ fn gen(cases_path: &str, out_rs: &str, out_facts: &str) {
             nn_states.push(format!("[{},{},{},{},{},{}]", i, len, (st[1] != 0) as u8, ml, fl, st[4]));
         }
         write!(facts, "\"nnfa_states\": [{}], ", nn_states.join(",")).unwrap();
+        write!(facts, "\"nnfa_fail\": [{}], ", rn.states.iter().map(|st| st[3].to_string()).collect::<Vec<_>>().join(",")).unwrap();
         let ctab = verif::cnfa::state_table(c);
         write!(facts, "\"cnfa_states\": [{}], ", ctab.iter().map(|t| format!("[{},{},{},{}]", t.0, t.1, t.2, t.3)).collect::<Vec<_>>().join(",")).unwrap();
         write!(facts, "\"rel_u\": [{}], ", rel_u.iter().map(|(k, (x, y))| format!("[{},{},{}]", k, x, y)).collect::<Vec<_>>().join(",")).unwrap();
@@ -707,7 +719,13 @@ pub fn build_packed(spec: &PackedSpec) -> Option<aho_corasick::packed::Searcher>
 fn emit_packed_statics(rs: &mut String, raw: &verif::packed::api::RawSearcher) -> usize {
     writeln!(rs, "pub static ORDER: [u32; {}] = {};", raw.order.len(), arr(&raw.order)).unwrap();
     assert!(raw.rk_buckets.len() == 64, "Rabin-Karp bucket count changed");
+    // all empty buckets alias one shared empty static (keeps the solver's
+    // points-to sets for the bucket pointer small)
+    writeln!(rs, "pub static RKE: [aho_corasick::verif::packed::rabinkarp::Entry; 0] = [];").unwrap();
     for (i, b) in raw.rk_buckets.iter().enumerate() {
+        if b.is_empty() {
+            continue;
+        }
         write!(rs, "pub static RK{}: [aho_corasick::verif::packed::rabinkarp::Entry; {}] = [", i, b.len()).unwrap();
         for (h, pid) in b {
             write!(rs, "aho_corasick::verif::packed::rabinkarp::entry({}, {}),", h, pid).unwrap();
@@ -716,7 +734,11 @@ fn emit_packed_statics(rs: &mut String, raw: &verif::packed::api::RawSearcher) -
     }
     write!(rs, "pub static RKB: [&[aho_corasick::verif::packed::rabinkarp::Entry]; 64] = [").unwrap();
     for i in 0..64 {
-        write!(rs, "&RK{},", i).unwrap();
+        if raw.rk_buckets[i].is_empty() {
+            write!(rs, "&RKE,").unwrap();
+        } else {
+            write!(rs, "&RK{},", i).unwrap();
+        }
     }
     writeln!(rs, "];").unwrap();
     let teddy_bytes = if raw.teddy_rebuildable { raw.teddy_masks.len() } else { 0 };
